@@ -22,15 +22,33 @@ def blocks_by_value(m, tables, f, cap_pat, adt, pred_pat=r"^acts::scheduler::sta
         c = Call(f, r[2])
         return bool(c.args) and recv_ok(pa.root(f, c.args[0]))
 
+    # bool / Result temporaries with constant definitions (`matches!(state, A | B)`, a flag set in the arms of a match):
+    # carried along each walk so that the branch on the temporary is taken the way its definition on this path says
+    sets, switches = f._corr()
     for v in byd:
         seen = set()
-        work = [0]
+        seen_st = set()
+        work = [(0, ())]
         while work:
-            b = work.pop()
-            if b in seen:
+            b, facts = work.pop()
+            if b in sets:
+                d = dict(facts)
+                for loc, val in sets[b]:
+                    if isinstance(val, tuple) and val and val[0] == "copy":
+                        val = d.get(val[1])
+                    d[loc] = val
+                facts = tuple(sorted(d.items(), key=repr))
+            if (b, facts) in seen_st:
                 continue
+            seen_st.add((b, facts))
             seen.add(b)
             t = f.blocks[b]["t"]
+            if t[0] == "switch" and b in switches:
+                loc, tg = switches[b]
+                val = dict(facts).get(loc)
+                if val is not None and not isinstance(val, tuple) and val in tg:
+                    work.append((tg[val], facts))
+                    continue
             if t[0] == "switch":
                 r = pa.root(f, t[1])
                 neg = False
@@ -53,10 +71,10 @@ def blocks_by_value(m, tables, f, cap_pat, adt, pred_pat=r"^acts::scheduler::sta
                         if int(sv) == byd[v]:
                             tgt = tb
                 if tgt is not None:
-                    work.append(tgt)
+                    work.append((tgt, facts))
                     continue
             for s in f.succ(b):
-                work.append(s)
+                work.append((s, facts))
         out[v] = seen
     return out
 
